@@ -139,6 +139,57 @@ def oracle_c09(ctx: Ctx, n=None):
     ctx.coverage["exhaustive"] = True
 
 
+ARCH_COQ = {"x86_64": "X86_64", "aarch64": "Aarch64", "arm64": "Aarch64", "armv7l": "Armv7L", "armv6l": "Armv6L", "ppc64le": "Powerpc64Le", "ppc64": "Powerpc64",
+            "s390x": "S390X", "riscv64": "RISCV64", "x86": "X86", "loongarch64": "LoongArch64"}
+
+
+def stream_splat(ctx: Ctx):
+    """Model/Platform.v against platform.py: full tag lists (rendered) and scores, exhaustive over the grid"""
+    import coqrun
+    from dep_logic.tags import EnvSpec, Platform
+    from dep_logic.tags import os as O
+    from dep_logic.tags.platform import Arch
+    grid = []
+    for arch in ARCHS_LINUX + ["x86", "armv6l", "loongarch64"]:
+        for K in list(range(5, 51)) + [0, 4, 60, 100]:
+            grid.append(("Manylinux", 2, K, arch))
+    for arch in ("x86_64", "aarch64"):
+        for K in range(0, 7):
+            grid.append(("Musllinux", 1, K, arch))
+    for arch in ("x86_64", "arm64"):
+        for (A, B) in [(10, b) for b in range(0, 18)] + [(a, b) for a in range(11, 32) for b in (0, 3)] + [(9, 0), (8, 5)]:
+            grid.append(("Macos", A, B, arch))
+    for arch in ("x86", "x86_64", "arm64", "armv7l"):
+        grid.append(("Windows", 0, 0, arch))
+    grid.append(("Macos", 12, 0, "armv7l"))
+    terms = []
+    for osn, A, B, arch in grid:
+        os_ = O.Windows() if osn == "Windows" else getattr(O, osn)(A, B)
+        p = Platform(os_, Arch.parse(arch))
+        cp = f"(mkPlatform {'Windows' if osn == 'Windows' else f'({osn} {A} {B})'} {ARCH_COQ[arch]})"
+        try:
+            tags = list(p.compatible_tags)
+            r = "(Ret [" + "; ".join(coqrun.cstr(t) for t in tags) + "])"
+        except Exception as e:  # noqa: BLE001
+            tags = None
+            r = f"(Raise {type(e).__name__})"
+        terms.append(f"PTags {cp} {r}")
+        if tags is not None:
+            e = EnvSpec.from_spec(">=3.8")
+            e = type(e)(e.requires_python, p, None)
+            alltags = tags + ["any"]
+            for idx in sorted({0, len(alltags) // 2, len(alltags) - 1}):
+                sc = e._evaluate_platform(alltags[idx])
+                terms.append(f"PScore {cp} {idx}%nat {'None' if sc is None else f'(Some {sc}%nat)'}")
+    total, bad, errs = coqrun.eval_cases(terms, f"{ctx.prop}-splat", mod="Platform CorrPlat", casety="pcase", runner="run_pcases", shard=150)
+    ctx.count("S-plat", total)
+    if errs:
+        ctx.broke("correspondence", "S-plat (evaluation failed)", "\n".join(errs[:3]))
+    if bad:
+        ctx.broke("correspondence", "S-plat: Model/Platform.v vs platform.py", f"{len(bad)} of {total} cases differ; first: {terms[bad[0]][:400]}")
+    ctx.sample({"stream": "S-plat", "case": terms[5][:200]})
+
+
 # ------------------------------------------------------------------------------ C08
 IMPLS = [None, ("cpython", False), ("cpython", True), ("pypy", False), ("pyston", False)]
 SHORT = {"cpython": "cp", "pypy": "pp", "pyston": "pt"}
